@@ -11,11 +11,11 @@ and does the system predict what the implementation answered).
    -> `ok a=_ s=_ ro=_ rel=_ asu=_ ssu=_ begun=_ indexed=_ sealed=_ lost=_`  |  `err step <i>`
 
 `aconc <label>|<label>|...`
-   wn/<i>/<mid>.<rid>.<t>+<t>;<doc>;...   wb/<i> wp/<i> wi/<i> wt/<i> wq/<i> ws/<i> wd/<i>
+   wn/<i>/<mid>.<rid>.<t>+<t>;<doc>;...   wb/<i> wp/<i> wi/<i> wg/<i> wt/<i> wq/<i> ws/<i> wd/<i>
    rn/<i>/<query>/<from>/<to>   (query in prefix form, `.`-separated: T<n> | A q q | O q q | N q)
    ri/<i> rb/<i> rm/<i> rM/<i> rR/<i> rl/<i> re/<i> rf/<i>/<mid>.<rid> rc/<i>
    -> `ok obs=<one number per label> r<i>=<ids sorted>/<fetch outcomes F|N|P> ...`  |  `err step <i>`
-   obs: wb block index, wp/wi documents kept, wt number of queue calls, wq LIDs queued, rm |mapping|, rM/rR |ids|,
+   obs: wb block index, wp/wi documents kept, wg tokens created, wt number of queue calls, wq LIDs queued, rm |mapping|, rM/rR |ids|,
         rl LIDs in the token's list before inverseLIDs, everything else 0.
 -/
 open SV SV.Proto
@@ -95,7 +95,7 @@ def label? (s : String) : Option Label :=
   match s.splitOn "/" with
   | ["wn", i, docs] => do pure (.wNew (← i.toNat?) (← (splitList docs ";").mapM doc?))
   | ["wb", i] => i.toNat?.map .wBlock | ["wp", i] => i.toNat?.map .wPos | ["wi", i] => i.toNat?.map .wIds
-  | ["wt", i] => i.toNat?.map .wToks | ["wq", i] => i.toNat?.map .wQueue | ["ws", i] => i.toNat?.map .wStats
+  | ["wg", i] => i.toNat?.map .wTokGet | ["wt", i] => i.toNat?.map .wToks | ["wq", i] => i.toNat?.map .wQueue | ["ws", i] => i.toNat?.map .wStats
   | ["wd", i] => i.toNat?.map .wDone
   | ["rn", i, q, a, b] => do
     let toks := q.splitOn "."
@@ -112,12 +112,15 @@ def obs (s s' : St) : Label → Nat
   | .wBlock i => (s'.ws i).blk
   | .wPos i => (s'.ws i).napp
   | .wIds i => (s'.ws i).docs.length
+  | .wTokGet i => (s'.ws i).newToks.length
   | .wToks i => (s'.ws i).todo.length
   | .wQueue i => match (s.ws i).todo with | (_, ls) :: _ => ls.length | [] => 0
   | .rMapping i => (s'.rs i).mapping.length
   | .rMids i => (s'.rs i).nmids
   | .rRids i => (s'.rs i).nrids
-  | .rLeaf i => match (s.rs i).todo with | t :: _ => (s.sh.tok t).length | [] => 0
+  | .rLeaf i => match (s.rs i).todo with
+    | t :: _ => if s.sh.dict.contains t then (s.sh.tok t).length else 0
+    | [] => 0
   | _ => 0
 
 def runObs : St → List Label → Nat → List Nat → Except Nat (St × List Nat)
